@@ -11,4 +11,6 @@ var checks = map[string]check{
 		Floors: map[string]int64{"c14ctl.handoffs": 500, "c14ctl.schedules": 300, "c14stress.handoffs": 1000}},
 	"C15": {ID: "C15", Level: "exploration", Units: []unit{u("hcore", "c15", 8, 12), u("hcore", "c15ctl", 4, 4)},
 		Floors: map[string]int64{"c15.messages": 5000, "c15.topics": 1000, "c15ctl.probes_served": 200}},
+	"C06": {ID: "C06", Level: "exploration", Units: []unit{u("hcore", "c06", 10, 16)},
+		Floors: map[string]int64{"c06.sessions": 100, "c06.duplicate_party_sessions": 5}},
 }
